@@ -111,7 +111,8 @@ def txStep (id : Nat) (cur : Option TxRow) : Event → Option TxRow
   | .committed t _ _ =>
     if t.id = id then
       -- `insert_transaction_metadata_history` stamps revision 1 with the transaction's *timestamp*
-      some { updatedAt := t.insertedAt, metadata := t.metadata, revisions := [(t.timestamp, t.metadata)] }
+      some { updatedAt := t.insertedAt, metadata := metaMerge [] t.metadata,
+             revisions := [(t.timestamp, metaMerge [] t.metadata)] }
     else cur
   | .reverted id' d =>
     if id' = id then
